@@ -30,6 +30,16 @@ theorem bad_entries_survive (dir : Bytes) (pre post : List (Bytes × Entry)) (n 
     scanChildren dir (pre ++ (n, e) :: post) d = scanChildren dir pre d ++ scanChildren dir post d :=
   Lemmas.Walk.bad_entries_survive dir pre post n e d hb
 
+/-- the recursive scan cannot end the process (regenerated from cmd/decipher/main.go: no log.Fatal* / os.Exit / panic
+    inside `inspectDirectory`): this is what makes "skipped" in `scanEntry` the whole story for an entry that cannot be
+    opened or listed — before the repair of D69 an unlistable subdirectory ended the scan of all its parents -/
+theorem scan_cannot_exit : Gen.cliScanCanExit = false := by decide
+
+/-- an unlistable directory (no permission, path beyond PATH_MAX, removed meanwhile) is a bad entry like any other -/
+theorem locked_dir_survives (dir : Bytes) (pre post : List (Bytes × Entry)) (n : Bytes) (d : Nat) :
+    scanChildren dir (pre ++ (n, Entry.lockedDir) :: post) d = scanChildren dir pre d ++ scanChildren dir post d :=
+  Lemmas.Walk.bad_entries_survive dir pre post n _ d rfl
+
 /-- RECURSIVE = CONCATENATION: the recursive scan equals the single-file runs of the files it covers, in order -/
 theorem recursive_eq_concat (dir : Bytes) (children : List (Bytes × Entry)) (d : Nat) (h : heightList children ≤ d) :
     scanChildren dir children d =
